@@ -182,7 +182,8 @@ where
                 Poll::Pending => (),
             }
 
-            if server.is_some() {
+            // Only take another reply once the buffered one has been written out
+            if server.is_some() && buffered_rep.is_none() {
                 let st = &mut server.as_mut().as_pin_mut().unwrap().1;
 
                 match st.poll_next_unpin(cx) {
@@ -206,7 +207,7 @@ where
                         server_pending = true;
                     }
                 }
-            } else {
+            } else if server.is_none() {
                 // Nothing to wait for on the replier side until one registers
                 server_pending = true;
             }
